@@ -348,6 +348,10 @@ func c16(c *an.Ctx) {
 		}
 	})
 
+	c.Check("R-BOOL", "what a subscription / mutation sends: an error message exactly for a failed first run (subscription) or any failed mutation, data only for a successful run, nothing for a cancelled one; a failed rerun is retried (error returned, nothing sent)", 4, func(o *an.O) {
+		ruleHandlerTables(c, o)
+	})
+
 	c.Check("R-ERR", "errors produced while executing work units are never dropped (each reaches outputNode.Fail, a return, or a wrapper whose result does)", 12, func(o *an.O) {
 		files := map[string]bool{"batch_executor.go": true}
 		for _, fn := range p.ModuleFuncs(func(rel string) bool { return rel == gq }) {
